@@ -430,11 +430,29 @@ def expand_flags(c):
         c['allocates'] = list(c['allocates']) + [x for x in TREEOP_ALLOCATES if x not in c['allocates']]
 
 
+def _pkg_of_file(f):
+    """package path (relative to the module root, as in the IR's type keys) of a contract file"""
+    import os
+    if not f:
+        return None
+    d = os.path.dirname(os.path.abspath(f))
+    root = d
+    while root != '/' and not os.path.exists(os.path.join(root, 'go.mod')):
+        root = os.path.dirname(root)
+    if root == '/':
+        return None
+    rel = os.path.relpath(d, root)
+    return None if rel == '.' else rel
+
+
 def merge_contracts(cs):
     out = {'specs': {}, 'defines': {}, 'axioms': [], 'lemmas': [], 'funcs': {}, 'ghostfuncs': {}}
     for c in cs:
         out['specs'].update(c['specs'])
         out['defines'].update(c['defines'])
+        pk_ = _pkg_of_file(c.get('file'))
+        for nm_ in list(c['defines']) + list(c['specs']):
+            out.setdefault('defpkg', {})[nm_] = pk_
         out['axioms'] += [(l, a, t, c.get('file')) for (l, a, t) in c['axioms']]
         out['lemmas'] += [(l, a, t, c.get('file')) for (l, a, t) in c['lemmas']]
         for k, v in c['funcs'].items():
